@@ -32,7 +32,7 @@ func alphabetMixed(cfg Cfg) []Op {
 
 func runC04(c *Ctx) {
 	depth := 3
-	cfgs := []Cfg{{}, {Cache: true, Compress: true}, {Async: 1, Index: 2}, {Index: 1, Lower: true, Ext: ".obj"}, {Async: 2, MapRev: true}}
+	cfgs := []Cfg{{}, {Cache: true, Compress: true}, {Async: 1, Index: 2}, {Index: 1, Lower: true, Ext: ".v1.obj"}, {Async: 2, MapRev: true}}
 	if c.Tier == "thorough" {
 		depth = 5
 		cfgs = cfgQuick
